@@ -902,7 +902,12 @@ impl<'r, R: Rng> ProgGen<'r, R> {
         let ndefs = heads.len();
         let mut params_all: Vec<Vec<ParamDecl>> = Vec::new();
         for _ in 0..ndefs {
-            let np = *[0usize, 0, 0, 1, 1, 2, 3].choose(self.rng).unwrap().min(&self.cfg.max_params);
+            // (the longer list is used only on request, so that every other workload keeps its stream)
+            let np = if self.cfg.max_params >= 4 {
+                *[0usize, 0, 1, 2, 3, 4, 4, 4].choose(self.rng).unwrap()
+            } else {
+                *[0usize, 0, 0, 1, 1, 2, 3].choose(self.rng).unwrap().min(&self.cfg.max_params)
+            };
             let assoc_def = np > 0 && self.chance(self.cfg.p_assoc);
             let params = (0..np)
                 .map(|i| {
@@ -1235,4 +1240,43 @@ pub fn inline_wrapper_gallery() -> Vec<Program> {
             prefix: vec![],
         },
     ]
+}
+
+/// Definitions with four parameters in which ONE member uses two of them while two more stay
+/// unused (and sit in a PhantomData member) - struct, tuple struct, enum; the arguments are
+/// numbered in rising, falling and mixed order by the order of the roots.
+pub fn many_params_gallery() -> Vec<Program> {
+    let nf = |n: &str, t: Ty| FieldDecl { name: Some(n.into()), ty: t, compact: false, skip: false, docs: vec![] };
+    let uf = |t: Ty| FieldDecl { name: None, ty: t, compact: false, skip: false, docs: vec![] };
+    let pd = |n: &str| ParamDecl { name: n.into(), skipped: false, cfg: false, uint: false };
+    let def = |name: &str, params: Vec<ParamDecl>, kind: DefKind| Def { module: vec!["m".into()], name: name.into(), params, kind, docs: vec![] };
+    let four = || vec![pd("T"), pd("U"), pd("V"), pd("W")];
+    let ph = |a: usize, b: usize| Ty::Phantom(Ty::Tuple(vec![Ty::Param(a), Ty::Param(b)]).b());
+    let mut out = Vec::new();
+    for args in [
+        [Prim::U8, Prim::U16, Prim::U32, Prim::U64],
+        [Prim::U64, Prim::U32, Prim::U16, Prim::U8],
+        [Prim::U16, Prim::U8, Prim::U64, Prim::U32],
+    ] {
+        let a: Vec<Ty> = args.iter().map(|p| Ty::Prim(*p)).collect();
+        out.push(Program {
+            krate: "krate".into(),
+            defs: vec![
+                def("Pair", four(), DefKind::Struct(Style::Named, vec![nf("entry", Ty::Tuple(vec![Ty::Param(0), Ty::Param(1)])), nf("marker", ph(2, 3))])),
+                def("Mid", four(), DefKind::Struct(Style::Unnamed, vec![uf(Ty::BTreeMap(Ty::Param(1).b(), Ty::Param(2).b())), uf(ph(0, 3))])),
+                def(
+                    "Choice",
+                    four(),
+                    DefKind::Enum(vec![
+                        VariantDecl { name: "Both".into(), index: None, style: Style::Unnamed, fields: vec![uf(Ty::Result(Ty::Param(3).b(), Ty::Param(0).b()))], docs: vec![] },
+                        VariantDecl { name: "Neither".into(), index: None, style: Style::Unnamed, fields: vec![uf(ph(1, 2))], docs: vec![] },
+                    ]),
+                ),
+            ],
+            markers: vec![],
+            roots: vec![Ty::Def(0, a.clone()), Ty::Def(1, a.clone()), Ty::Def(2, a)],
+            prefix: vec![],
+        });
+    }
+    out
 }
